@@ -41,6 +41,19 @@ MUTS = {
     "m20-continue-with-mutex-held": [("        while ((t[i].state == DSH_CANCELED) && (i < rshcount))\n            ++i;\n        /*\n         *  Abort if no more threads\n         */\n"
                                       "        if (i >= rshcount) {\n            dsh_mutex_unlock(&threadcount_mutex);\n            break;\n        }\n",
                                       "        if (t[i].state == DSH_CANCELED)\n            continue;\n")],
+    # the signals are not blocked in every thread / not all taken by sigwait (decided on real threads with real signals,
+    # harness/sigthread_harness.c)
+    "m21-mask-no-tstp": [("    sigaddset(&blockme, SIGTSTP);\n", "")],
+    "m22-no-block-at-start": [("    _mask_signals (SIG_BLOCK);\n\n    /*\n     *   Initialize rcmd modules", "    /*\n     *   Initialize rcmd modules")],
+    "m23-sigwait-no-tstp": [("    sigaddset (&set, SIGTSTP);\n", "")],
+    "m24-last-intr-now": [("    time_t last_intr = 0;", "    time_t last_intr = time(NULL);")],
+    "m25-tstp-window-ge": [("    if (time (NULL) - last_intr > INTR_TIME)\n        raise (SIGSTOP);", "    if (time (NULL) - last_intr >= INTR_TIME)\n        raise (SIGSTOP);")],
+    "m26-lone-tstp-ignored": [("        raise (SIGSTOP);", "        ;")],
+    "m27-block-after-threads": [("    _mask_signals (SIG_BLOCK);\n\n    /*\n     *   Initialize rcmd modules", "    /*\n     *   Initialize rcmd modules"),
+                                ("    /* wait for termination of remaining threads */\n", "    _mask_signals (SIG_BLOCK);\n    /* wait for termination of remaining threads */\n")],
+    # the copy personality has its own worker
+    "m28-rcp-blind-state-write": [("    a->start = time(NULL);\n    dsh_mutex_lock(&thd_mutex);\n    if (a->state == DSH_CANCELED)\n        result = DSH_CANCELED;  /* canceled by ^C ^Z before we got to run */\n    else\n        a->state = DSH_RCMD;",
+                                   "    a->start = time(NULL);\n    dsh_mutex_lock(&thd_mutex);\n    a->state = DSH_RCMD;")],
 }
 ids = sys.argv[2:] or sorted(MUTS)
 for mid in ids:
